@@ -99,6 +99,8 @@ pub struct Record {
     pub closed: Vec<Closed>,
     pub handshake: Vec<(u64, u8, String)>,
     pub quiche: QuicheEnd,
+    /// s2n-quic frame_sent / frame_received events (only recorded when QUICHEMC_VERBOSE is set)
+    pub frames: Vec<(u64, u8, &'static str, String)>,
     pub stalled: Option<String>,
     pub panicked: Option<String>,
     pub end_t: u64,
@@ -123,6 +125,11 @@ pub struct Sub {
     pub rec: Rec,
 }
 
+pub fn verbose() -> bool {
+    static V: std::sync::OnceLock<bool> = std::sync::OnceLock::new();
+    *V.get_or_init(|| std::env::var("QUICHEMC_VERBOSE").is_ok())
+}
+
 pub fn variant_name<T: std::fmt::Debug>(t: &T) -> String {
     let s = format!("{:?}", t);
     s.split(|c: char| !(c.is_alphanumeric() || c == '_')).next().unwrap_or("").to_string()
@@ -137,6 +144,18 @@ impl event::Subscriber for Sub {
         let (kind, code) = classify_error(&e.error);
         let t = now_us();
         self.rec.0.lock().unwrap().closed.push(Closed { t, ep: self.ep, error: format!("{:?}", e.error), kind, transport_code: code });
+    }
+    fn on_frame_sent(&mut self, _c: &mut (), _meta: &events::ConnectionMeta, e: &events::FrameSent) {
+        if verbose() {
+            let t = now_us();
+            self.rec.0.lock().unwrap().frames.push((t, self.ep, "tx", format!("{:?} {:?}", e.packet_header, e.frame)));
+        }
+    }
+    fn on_frame_received(&mut self, _c: &mut (), _meta: &events::ConnectionMeta, e: &events::FrameReceived) {
+        if verbose() {
+            let t = now_us();
+            self.rec.0.lock().unwrap().frames.push((t, self.ep, "rx", format!("{:?} {:?}", e.packet_header, e.frame)));
+        }
     }
     fn on_handshake_status_updated(&mut self, _c: &mut (), _meta: &events::ConnectionMeta, e: &events::HandshakeStatusUpdated) {
         let t = now_us();
